@@ -758,7 +758,38 @@ class VSlice(V):
     def py_getattr(self, it, ctx, name):
         if name in ("start", "stop", "step"):
             return getattr(self, name)
+        if name == "indices":
+            return VBuiltin("slice.indices", self._indices)
         raise Undecided(f"slice.{name}")
+
+    def _indices(self, it, ctx, a, k):
+        """slice.indices(n) for step > 0 (CPython semantics; step <= 0 is outside the supported subset)"""
+        n = a[0].t
+
+        def get(x):
+            if isinstance(x, VAny):
+                x = x.force(it, ctx)
+            if x is NONE:
+                return None
+            if isinstance(x, VNum) and x.is_int:
+                return x.t
+            raise PyRaise(VExc("TypeError", "slice indices must be integers or None"))
+
+        start, stop, step = get(self.start), get(self.stop), get(self.step)
+        if step is None:
+            step = z3.IntVal(1)
+        elif ctx.branch(step == 0):
+            raise PyRaise(VExc("ValueError", "slice step cannot be zero"))
+        elif not ctx.branch(step > 0):
+            raise Undecided("slice.indices with negative step")
+
+        def clampn(v):
+            v = z3.If(v < 0, v + n, v)
+            return z3.If(v < 0, 0, z3.If(v > n, n, v))
+
+        st = z3.IntVal(0) if start is None else clampn(start)
+        en = n if stop is None else clampn(stop)
+        return VTuple([VNum(z3.simplify(st)), VNum(z3.simplify(en)), VNum(step)])
 
     def py_eq(self, it, ctx, other):
         if not isinstance(other, VSlice):
